@@ -204,7 +204,7 @@ impl Property for ExplProp {
         "C17"
     }
     fn rule(&self) -> String {
-        "generated models with every constraint tagged, searched (iteration of all solutions, or optimisation) under generated configurations with the explanation tap enabled; every record (propagation at propagation time, conflict reported by a propagator, reason recomputed during conflict analysis) is judged: (1) brute force over the declared domains of the constraint's scope and the reason's variables: constraint /\\ reason => propagated (or no assignment for a conflict); nogood-propagator reasons are judged against the solutions of the model not yet excluded by blocking clauses / objective cuts; (2) every reason predicate holds in the state, strictly before the explained trail entry. Non-trivial: a case with >=1 record with a non-empty reason at decision level >=1; distinct by (propagator, record kind, reason shape, predicate kind) within a case and by model hash across cases.".into()
+        "generated models (one in five a scheduling model with up to six tasks of duration up to 5) with every constraint tagged, searched (iteration of all solutions, or optimisation) under generated configurations with the explanation tap enabled; every record (propagation at propagation time, conflict reported by a propagator, reason recomputed during conflict analysis) is judged: (1) brute force over the declared domains of the constraint's scope and the reason's variables: constraint /\\ reason => propagated (or no assignment for a conflict); nogood-propagator reasons are judged against the solutions of the model not yet excluded by blocking clauses / objective cuts; (2) every reason predicate holds in the state, strictly before the explained trail entry. Non-trivial: a case with >=1 record with a non-empty reason at decision level >=1; distinct by (propagator, record kind, reason shape, predicate kind) within a case and by model hash across cases.".into()
     }
     fn assumptions(&self) -> Vec<String> {
         vec![
@@ -228,9 +228,19 @@ impl Property for ExplProp {
             }))
             .collect();
         let pp = p.clone();
+        // one case in five is a scheduling model: up to six tasks with durations up to 5 (long profiles, holes
+        // in front of and inside them), about half of the start variables nearly fixed, a few side constraints
+        let mut pp_cum = p.clone();
+        pp_cum.kinds = vec![(K::Cumulative, 10), (K::BinLe, 2), (K::BinNe, 2), (K::LinLe, 1)];
+        pp_cum.max_cons = 3;
+        pp_cum.max_tasks = 6;
+        pp_cum.max_dur = 5;
+        pp_cum.small_dom_permille = 550;
+        pp_cum.max_dom = 7;
+        pp_cum.pred_literals = false;
         (raw_model_strategy(&p), raw_config_strategy(), any::<u8>(), (any::<u16>(), -3i8..=3, -3i8..=3), any::<bool>())
             .prop_map(move |((rv, rc), rcfg, path, obj, maximise)| {
-                let mut model = build_model(&pp, &rv, &rc);
+                let mut model = if (path / 5) % 5 == 4 { build_model(&pp_cum, &rv, &rc) } else { build_model(&pp, &rv, &rc) };
                 for c in model.cons.iter_mut() {
                     c.tag = true;
                 }
